@@ -1,10 +1,24 @@
-// Package c04: harness for property C04 (stub until built).
+// Package c04: pool liquidity bookkeeping — histories on the real x/liquiditypool.
 package c04
 
-import "fmt"
+import (
+	"verifharness/amm"
+	"verifharness/emit"
+)
 
-// Run generates n cases from seed, runs them on the real application and writes
-// cases_*.v and stats.json into outDir.
 func Run(seed int64, n int, outDir string) error {
-	return fmt.Errorf("c04: harness not built yet")
+	w := amm.NewWorld(seed)
+	defer w.H.Close()
+	if err := w.SetupPools(4); err != nil {
+		return err
+	}
+	st := emit.NewStats("C04", seed, "generated histories of create/increase/decrease/claim/swap/allocate over 4 pools with different fee and tick parameters, one case per operation (pre-state, op, result, post-state of the real module and bank), then two full drains; non-trivial = the step crossed an initialised tick, removed the last position, created a position on an emptied pool, or moved the price (distinct by pool and resulting price)")
+	cf := &emit.CasesFile{Import: "Amm.C04Check", Runner: "run", Type: "amm_case"}
+	if err := w.History(cf, st, n); err != nil {
+		return err
+	}
+	if _, err := cf.Write(outDir, "cases", 40); err != nil {
+		return err
+	}
+	return st.Write(outDir)
 }
